@@ -328,11 +328,21 @@ def check(case) -> Case:
 # ------------------------------------------------------------------------------------ exhaustive small forests
 
 
-def small_forests(max_nodes):
-    """All forests over the common kinds with <= max_nodes control nodes (if-variants: plain, else, elif+else)."""
+COMMON_VARIANTS = [("if", 1, False), ("if", 2, True), ("if", 3, True), ("for", 1, False), ("while", 1, False), ("match", 2, False)]
+# a language's own kinds: (kind, branches, else-flag); try = body + handler (+ finally)
+OWN_VARIANTS = {
+    "py": [("with", 1, False), ("awith", 1, False), ("afor", 1, False), ("try", 2, False), ("try", 3, False)],
+    "ts": [("dowhile", 1, False), ("forin", 1, False), ("forof", 1, False), ("try", 2, False), ("try", 3, False)],
+    "rs": [("loop", 1, False), ("whilelet", 1, False), ("iflet", 1, False), ("closure", 1, False), ("asyncblock", 1, False)],
+}
+
+
+def small_forests(max_nodes, variants=None):
+    """All forests over the given kinds (default: the common ones) with <= max_nodes control nodes (if-variants: plain,
+    else, elif+else)."""
     from functools import lru_cache
 
-    variants = [("if", 1, False), ("if", 2, True), ("if", 3, True), ("for", 1, False), ("while", 1, False), ("match", 2, False)]
+    variants = list(variants or COMMON_VARIANTS)
 
     @lru_cache(None)
     def gen(n):  # forests with exactly n nodes (as tuples)
@@ -384,6 +394,24 @@ def run(ctx):
     done = ctx.each(cells, check)
     ctx.stats.extra.setdefault("matrix", {})[f"all forests with <= {N} control nodes over if/if-else/if-elif-else/for/while/match"] = {"cells": len(mine), "done": min(len(mine), done * group // 2), "layouts": ["lines", "terse"]}
     ctx.stats.extra["exhaustive_subspace_nodes"] = N
+    # the same for every language's own alphabet (common kinds + the kinds only that language has); only forests that hold
+    # at least one of the language's own kinds are new here. ts cells are rendered to .ts and .js.
+    for lang in ("py", "ts", "rs"):
+        own = {k for k, _, _ in OWN_VARIANTS[lang]}
+        allf = [f for f in small_forests(2, COMMON_VARIANTS + OWN_VARIANTS[lang]) if sk.kinds_in(f) & own]
+        if ctx.quick:  # one half per seed parity, by a hash over the whole list (not by shard-local index)
+            allf = [f for f in allf if (int(h(erase(f)), 16) + ctx.seed) % 2 == 0]
+        mine = ctx.my_cells(allf)
+        cells = []
+        for i in range(0, len(mine), group):
+            chunk = mine[i:i + group]
+            for layout in (("lines",) if ctx.quick else ("lines", "terse")):
+                cells.append({"kind": "skeleton", "via": "cli", "wrap": None, "layout": layout,
+                              "funcs": [{"name": f"fn_{j}", "container": "top", "body": b} for j, b in enumerate(chunk)]})
+        done = ctx.each(cells, check)
+        nl = 1 if ctx.quick else 2
+        ctx.stats.extra["matrix"][f"{lang}: all forests with <= 2 control nodes over the common kinds + {'/'.join(sorted(own))} that use one of the latter" + (" (half by seed parity)" if ctx.quick else "")] = {
+            "cells": len(mine), "done": min(len(mine), done * group // nl)}
 
 
 def replay(case) -> Case:
